@@ -67,7 +67,10 @@ func c04History(e *core.Env, r *core.Rand, idx int64) {
 	y := r.PickInt(2024, 2024, 2023, 1999, 2400)
 	today := ref.Date{Y: y, M: r.Range(1, 12), D: 1}
 	today.D = r.PickInt(1, 15, 28, ref.DaysInMonth(today.Y, today.M))
-	d := gen.Document(r, gen.Opts{MaxRecs: 6, MaxEntries: 4, Near: &today, NearSpread: r.PickInt(1, 2, 5), Sorted: r.Chance(3, 4), NoDupDates: r.Chance(2, 3), Hostile: r.Chance(2, 3), OpenRanges: 1,
+	if r.Chance(1, 8) {
+		today = obs.DSTDates[r.Intn(len(obs.DSTDates))]
+	}
+	d := gen.Document(r, gen.Opts{MaxRecs: r.PickInt(6, 6, 6, 14), MaxEntries: 4, Near: &today, NearSpread: r.PickInt(1, 2, 5), Sorted: r.Chance(3, 4), NoDupDates: r.Chance(2, 3), Hostile: r.Chance(2, 3), OpenRanges: 1,
 		Tags: 1, Unicode: r.Chance(1, 4), LookAlikes: r.Chance(1, 3), TrailingBlank: false, MaxHours: 12})
 	file := e.Dir + "/c04.klg"
 	if err := os.WriteFile(file, []byte(d.Text), 0644); err != nil {
